@@ -177,6 +177,20 @@ pub fn run(ctx: &mut crate::Ctx) {
         pair!("update.and_where_option", { let mut u = Query::update(); u.table(id(&a.t)).value(id(&a.a), a.v1.clone()).and_where_option(Some(a.e1.clone())); u }, { let mut u = Query::update(); u.table(id(&a.t)).value(id(&a.a), a.v1.clone()).and_where(a.e1.clone()); u });
         pair!("update.values", { let mut u = Query::update(); u.table(id(&a.t)).values([(id(&a.a), a.e1.clone()), (id(&a.b), a.e2.clone())]); u }, { let mut u = Query::update(); u.table(id(&a.t)).value(id(&a.a), a.e1.clone()).value(id(&a.b), a.e2.clone()); u });
         pair!("delete.and_where_option", { let mut d = Query::delete(); d.from_table(id(&a.t)).and_where_option(Some(a.e1.clone())); d }, { let mut d = Query::delete(); d.from_table(id(&a.t)).and_where(a.e1.clone()); d });
+        // ---- expression / function helpers not reached elsewhere
+        pair!("Expr::asterisk", { let mut s = Query::select(); s.expr(Expr::asterisk()).from(id(&a.t)); s }, { let mut s = Query::select(); s.expr(Expr::col(Asterisk)).from(id(&a.t)); s });
+        pair!("Expr::table_asterisk", { let mut s = Query::select(); s.expr(Expr::table_asterisk(id(&a.t))).from(id(&a.t)); s }, { let mut s = Query::select(); s.expr(Expr::col((id(&a.t), Asterisk))).from(id(&a.t)); s });
+        pair!("Expr::current_time", wrap(col().eq(Expr::current_time())), wrap(col().eq(SimpleExpr::Keyword(Keyword::CurrentTime))));
+        pair!("Expr::custom_keyword", wrap(col().eq(Expr::custom_keyword(id("EXCLUDED")))), wrap(col().eq(SimpleExpr::Keyword(Keyword::Custom(id("EXCLUDED").into_iden())))));
+        pair!("Expr::cust_with_expr", wrap(Expr::cust_with_expr("? + 1 > 0", a.e1.clone())), wrap(Expr::cust_with_exprs("? + 1 > 0", [a.e1.clone()])));
+        pair!("Expr::in_tuples", wrap(Expr::tuple([Expr::col(id(&a.a)).into(), Expr::col(id(&a.b)).into()]).in_tuples([(1, 2), (3, 4)])),
+            wrap(Expr::tuple([Expr::col(id(&a.a)).into(), Expr::col(id(&a.b)).into()]).binary(BinOper::In, SimpleExpr::Tuple(vec![SimpleExpr::Values(vec![1.into(), 2.into()]), SimpleExpr::Values(vec![3.into(), 4.into()])]))));
+        pair!("Func::round_with_precision", wrap(SimpleExpr::from(Func::round_with_precision(a.e1.clone(), 2)).eq(a.e2.clone())), wrap(SimpleExpr::from(Func::round(a.e1.clone()).arg(2)).eq(a.e2.clone())));
+        // a CTE taken from a SELECT: table name and columns are those of the select
+        pair!("CommonTableExpression::from_select", { let base = { let mut s = Query::select(); s.column(id(&a.a)).column(id(&a.b)).from(id(&a.t)); s };
+              let mut q = Query::select(); q.column(id(&a.a)).from(id(&a.t)); q.with(WithClause::new().cte(CommonTableExpression::from_select(base)).to_owned()) },
+            { let base = { let mut s = Query::select(); s.column(id(&a.a)).column(id(&a.b)).from(id(&a.t)); s };
+              let mut q = Query::select(); q.column(id(&a.a)).from(id(&a.t)); q.with(WithClause::new().cte(CommonTableExpression::new().query(base).columns([id(&a.a), id(&a.b)]).table_name(id(&format!("cte_{}", a.t))).to_owned()).to_owned()) });
         // ---- ON CONFLICT: every where-adding method of target and action against the general form, with the other side set too
         {
             let ins = |oc: OnConflict| { let mut i = Query::insert(); i.into_table(id(&a.t)).columns([id(&a.a), id(&a.b)]).values_panic([a.e1.clone(), a.e2.clone()]).on_conflict(oc); i };
@@ -207,5 +221,63 @@ pub fn run(ctx: &mut crate::Ctx) {
         pair!("window.partition_by_customs", wsel({ let mut w = WindowStatement::new(); w.partition_by_customs(["x", "y"]); w }), wsel({ let mut w = WindowStatement::new(); w.add_partition_by(Expr::cust("x")).add_partition_by(Expr::cust("y")); w }));
         pair!("window.order_by_columns", wsel({ let mut w = WindowStatement::new(); w.order_by_columns([(id(&a.a), Order::Asc), (id(&a.b), Order::Desc)]); w }), wsel({ let mut w = WindowStatement::new(); w.order_by(id(&a.a), Order::Asc).order_by(id(&a.b), Order::Desc); w }));
         let _ = (&a.e3, &a.c);
+    }
+}
+
+
+/// schema builders: every `ColumnDef` type setter against `new_with_type` with the column type it documents, every specification
+/// setter against `.spec(..)`: same definition (Debug), same rendering inside CREATE TABLE on the three backends
+pub fn run_schema(ctx: &mut crate::Ctx) {
+    let a = |s: &str| Alias::new(s);
+    let render = |c: &ColumnDef| -> Vec<Option<String>> { let t = Table::create().table(a("t")).col(c.clone()).to_owned(); B::all().iter().map(|b| crate::sq::to_string_s(*b, &t)).collect() };
+    let types: Vec<(&str, fn(&mut ColumnDef), ColumnType)> = vec![
+        ("char_len", |d| { d.char_len(7); }, ColumnType::Char(Some(7))), ("char", |d| { d.char(); }, ColumnType::Char(None)),
+        ("string_len", |d| { d.string_len(300); }, ColumnType::String(StringLen::N(300))), ("string", |d| { d.string(); }, ColumnType::String(StringLen::None)),
+        ("text", |d| { d.text(); }, ColumnType::Text), ("tiny_integer", |d| { d.tiny_integer(); }, ColumnType::TinyInteger), ("small_integer", |d| { d.small_integer(); }, ColumnType::SmallInteger),
+        ("integer", |d| { d.integer(); }, ColumnType::Integer), ("big_integer", |d| { d.big_integer(); }, ColumnType::BigInteger), ("tiny_unsigned", |d| { d.tiny_unsigned(); }, ColumnType::TinyUnsigned),
+        ("small_unsigned", |d| { d.small_unsigned(); }, ColumnType::SmallUnsigned), ("unsigned", |d| { d.unsigned(); }, ColumnType::Unsigned), ("big_unsigned", |d| { d.big_unsigned(); }, ColumnType::BigUnsigned),
+        ("float", |d| { d.float(); }, ColumnType::Float), ("double", |d| { d.double(); }, ColumnType::Double), ("decimal_len", |d| { d.decimal_len(12, 3); }, ColumnType::Decimal(Some((12, 3)))),
+        ("decimal", |d| { d.decimal(); }, ColumnType::Decimal(None)), ("date_time", |d| { d.date_time(); }, ColumnType::DateTime), ("interval", |d| { d.interval(Some(PgInterval::YearToMonth), Some(3)); }, ColumnType::Interval(Some(PgInterval::YearToMonth), Some(3))),
+        ("interval(None)", |d| { d.interval(None, None); }, ColumnType::Interval(None, None)), ("vector", |d| { d.vector(Some(3)); }, ColumnType::Vector(Some(3))), ("vector(None)", |d| { d.vector(None); }, ColumnType::Vector(None)),
+        ("timestamp", |d| { d.timestamp(); }, ColumnType::Timestamp), ("timestamp_with_time_zone", |d| { d.timestamp_with_time_zone(); }, ColumnType::TimestampWithTimeZone), ("time", |d| { d.time(); }, ColumnType::Time),
+        ("date", |d| { d.date(); }, ColumnType::Date), ("year", |d| { d.year(); }, ColumnType::Year), ("binary_len", |d| { d.binary_len(16); }, ColumnType::Binary(16)), ("binary", |d| { d.binary(); }, ColumnType::Binary(1)),
+        ("var_binary", |d| { d.var_binary(64); }, ColumnType::VarBinary(StringLen::N(64))), ("bit", |d| { d.bit(Some(5)); }, ColumnType::Bit(Some(5))), ("bit(None)", |d| { d.bit(None); }, ColumnType::Bit(None)),
+        ("varbit", |d| { d.varbit(9); }, ColumnType::VarBit(9)), ("blob", |d| { d.blob(); }, ColumnType::Blob), ("boolean", |d| { d.boolean(); }, ColumnType::Boolean),
+        ("money_len", |d| { d.money_len(10, 2); }, ColumnType::Money(Some((10, 2)))), ("money", |d| { d.money(); }, ColumnType::Money(None)), ("json", |d| { d.json(); }, ColumnType::Json),
+        ("json_binary", |d| { d.json_binary(); }, ColumnType::JsonBinary), ("uuid", |d| { d.uuid(); }, ColumnType::Uuid), ("cidr", |d| { d.cidr(); }, ColumnType::Cidr), ("inet", |d| { d.inet(); }, ColumnType::Inet),
+        ("mac_address", |d| { d.mac_address(); }, ColumnType::MacAddr), ("ltree", |d| { d.ltree(); }, ColumnType::LTree),
+        ("custom", |d| { d.custom(Alias::new("citext")); }, ColumnType::Custom(Alias::new("citext").into_iden())),
+        ("enumeration", |d| { d.enumeration(Alias::new("mood"), [Alias::new("ok"), Alias::new("sad")]); }, ColumnType::Enum { name: Alias::new("mood").into_iden(), variants: vec![Alias::new("ok").into_iden(), Alias::new("sad").into_iden()] }),
+        ("array", |d| { d.array(ColumnType::Integer); }, crate::util::array_of(ColumnType::Integer)),
+    ];
+    for (name, f, ty) in types {
+        ctx.eval_only(&format!("api ColumnDef::{name}"), true);
+        ctx.count("api.column_type_setters");
+        let mut x = ColumnDef::new(a("c")); f(&mut x);
+        let y = ColumnDef::new_with_type(a("c"), ty.clone());
+        if format!("{x:?}") != format!("{y:?}") || render(&x) != render(&y) {
+            ctx.oracle_fail("a column type setter does not declare the column type it documents", serde_json::json!({"method": name, "documented": format!("{ty:?}"), "got": format!("{:?}", x.get_column_type()), "renders": render(&x), "expected": render(&y)}));
+        }
+        // a setter called after another type setter replaces the type
+        let mut z = ColumnDef::new(a("c")); z.integer(); f(&mut z);
+        if format!("{z:?}") != format!("{y:?}") { ctx.oracle_fail("a column type setter called after another one does not replace the type", serde_json::json!({"method": name, "got": format!("{:?}", z.get_column_type())})); }
+    }
+    let specs: Vec<(&str, fn(&mut ColumnDef), ColumnSpec)> = vec![
+        ("not_null", |d| { d.not_null(); }, ColumnSpec::NotNull), ("null", |d| { d.null(); }, ColumnSpec::Null), ("auto_increment", |d| { d.auto_increment(); }, ColumnSpec::AutoIncrement),
+        ("unique_key", |d| { d.unique_key(); }, ColumnSpec::UniqueKey), ("primary_key", |d| { d.primary_key(); }, ColumnSpec::PrimaryKey),
+        ("default", |d| { d.default(5); }, ColumnSpec::Default(Expr::val(5).into())), ("check", |d| { d.check(Expr::col(Alias::new("c")).gt(0)); }, ColumnSpec::Check(Expr::col(Alias::new("c")).gt(0))),
+        ("generated", |d| { d.generated(Expr::col(Alias::new("b")).mul(2), true); }, ColumnSpec::Generated { expr: Expr::col(Alias::new("b")).mul(2), stored: true }),
+        ("extra", |d| { d.extra("COLLATE x"); }, ColumnSpec::Extra("COLLATE x".into())), ("comment", |d| { d.comment("it's"); }, ColumnSpec::Comment("it's".into())),
+        ("using", |d| { d.using(Expr::col(Alias::new("c")).cast_as(Alias::new("integer"))); }, ColumnSpec::Using(Expr::col(Alias::new("c")).cast_as(Alias::new("integer")))),
+    ];
+    for (name, f, sp) in specs {
+        ctx.eval_only(&format!("api ColumnDef::{name}"), true);
+        ctx.count("api.column_spec_setters");
+        let mut x = ColumnDef::new(a("c")); x.integer().not_null(); f(&mut x);
+        let want = vec![ColumnSpec::NotNull, sp.clone()];
+        if format!("{:?}", x.get_column_spec()) != format!("{want:?}") || format!("{:?}", x.get_column_type()) != format!("{:?}", Some(&ColumnType::Integer)) {
+            ctx.oracle_fail("a column specification setter does not add the specification it documents", serde_json::json!({"method": name, "got": format!("{:?}", x.get_column_spec()), "expected": format!("{want:?}")}));
+        }
+        let _ = &render;
     }
 }
